@@ -1,5 +1,5 @@
 #!/usr/bin/env python3
-"""Kani leaf engine (DESIGN 3.6): loop-free leaf functions whose contract the Verus file only assumes.
+"""Kani leaf engine (DESIGN 3.6): loop-free leaf functions: the policies (contract only assumed in the Verus file) and trim_cr (also proved by Verus; Kani gives the counterexample).
 A scratch copy of /repo is made outside /repo and /verif, the harness modules in /verif/kani/*.rs are appended to
 src/lib.rs of the copy, `cargo kani` runs, the copy is removed."""
 import hashlib, json, os, re, shutil, subprocess, tempfile, time
@@ -10,8 +10,8 @@ CACHE = os.path.join(VERIF, ".cache")
 
 # property -> list of (harness file, harness name, function, bound label)
 HARNESSES = {
-    "C12": [("trim_cr.rs", "trim_cr_contract", "lib::trim_cr", "bounded: slice length <= 8, arbitrary bytes (function inspects only the last byte)")],
-    "C13": [("trim_cr.rs", "trim_cr_contract", "lib::trim_cr", "bounded: slice length <= 8, arbitrary bytes (function inspects only the last byte)")],
+    "C12": [("trim_cr.rs", "trim_cr_contract", "lib::trim_cr", "bounded: slice length <= 8, arbitrary bytes; counterexample source only - the contract is proved for every slice by Verus")],
+    "C13": [("trim_cr.rs", "trim_cr_contract", "lib::trim_cr", "bounded: slice length <= 8, arbitrary bytes; counterexample source only - the contract is proved for every slice by Verus")],
     "C09": [("policy.rs", "std_policy_formula", "policy::StdPolicy::grow_to", "complete: loop-free, every current size <= isize::MAX/2"),
             ("policy.rs", "double_until_formula", "policy::DoubleUntil::grow_to", "complete: loop-free, every current size and threshold <= isize::MAX/2"),
             ("policy.rs", "double_until_limited_formula", "policy::DoubleUntilLimited::grow_to",
